@@ -46,7 +46,22 @@ def main(argv=None):
                 return analysis_error(prop, 'no rules implemented for this property')
             raise
         ctx = Ctx(prop, args.tier)
-        mod.run(ctx)
+        crashed = None
+        try:
+            mod.run(ctx)
+        except AnalysisError as e:
+            crashed = str(e)
+        except Exception:
+            tb = traceback.format_exc()
+            sys.stderr.write(tb)
+            crashed = 'internal error: %s' % tb.strip().splitlines()[-1]
+        if crashed is not None:
+            # the analysis could not be completed; violations already established are still reported
+            if ctx.check.findings:
+                print('ANALYSIS-ERROR property=%s (partial run) %s' % (prop, crashed))
+                rc = ctx.check.finish(ctx.repo)
+                return rc if rc == 1 else 2
+            return analysis_error(prop, crashed)
         if ctx.check.obligations == 0:
             return analysis_error(prop, 'no rule instance was evaluated (vacuous run)')
         ctx.check.info['calls_resolution'] = dict(ctx.res.stats)
